@@ -101,6 +101,13 @@ def inherent_mutations(rng, c):
             yield ('missing_item@%d' % i, 'Not found in one of the impls', render(mk((b, items[:-1], hdr))), fam)
             yield ('extra_item@%d' % i, 'Not found in one of the impls', render(mk((b, items + ['    pub const EXTRA: u8 = 1;'], hdr))), fam)
             yield ('visibility@%d' % i, "Visibility doesn't match between impls", render(mk((b, [items[0].replace('pub const', 'const')] + items[1:], hdr))), fam)
+            # two different RESTRICTED visibilities (same variant of syn::Visibility, different scope)
+            rbase = [(b2, [it.replace('pub fn f', 'pub(crate) fn f') for it in its2], h2) for (b2, its2, h2) in base]
+            rb, ritems, rhdr = rbase[i]
+            rmut = [(rb, [it.replace('pub(crate) fn f', 'pub(self) fn f') for it in ritems], rhdr) if j == i else x for j, x in enumerate(rbase)]
+            yield ('restricted_visibility@%d' % i, "Visibility doesn't match between impls", render(rmut), fam)
+            if i == 0:
+                yield ('restricted_wellformed', None, render(rbase), fam)
         others = [x for x in fam.split('|')]
         split = '|'.join([','.join(str(j) for j in map(int, g.split(',')) if j != i) for g in others if g != str(i)] + [str(i)])
         split = '|'.join(g for g in split.split('|') if g)
